@@ -1,0 +1,16 @@
+package skiplist
+
+// Labels of the verification yield points (see verif_on.go / verif_off.go).
+// verifYield is an empty function unless built with -tags verif.
+const (
+	VerifPtAcqLoaded    = 20 // Acquire: session loaded, before the increment
+	VerifPtRelZero      = 21 // Release: decrement reached the flush offset
+	VerifPtRelLatched   = 22 // Release: closed latch won, before the queue insert
+	VerifPtRelQueued    = 23 // Release: session queued, before the try-lock
+	VerifPtCleanLoop    = 24 // doCleanup: top of a loop iteration
+	VerifPtCleanEnd     = 25 // Release: doCleanup returned, try-lock not yet reset
+	VerifPtCleanReset   = 26 // Release: try-lock reset (reserved for the re-examination of the queue)
+	VerifPtFlushLoaded  = 27 // FlushSession: locked, session loaded
+	VerifPtFlushSwapped = 28 // FlushSession: pointer swapped, old session tagged
+	VerifPtFlushAdded   = 29 // FlushSession: offset added, before the flusher's own Release
+)
